@@ -296,7 +296,7 @@ def explore_shape(prop, SH, OR, shape, validate=True, max_paths=None):
     res['forks'] = eng.stats['forks']
     res['summary_paths'] = eng.stats.get('summary_paths', 0)
     res['extra'] = prop.extra_counts() if hasattr(prop, 'extra_counts') else {}
-    if res['reached'] == 0 and not res['inconclusive']:
+    if res['reached'] == 0 and not res['inconclusive'] and not getattr(prop, 'ALLOW_VACUOUS', False):
         res['inconclusive'].append("vacuous: no path reached the assertion")
     return res
 
